@@ -6,7 +6,7 @@ import vlib, uaconv
 from vlib import Sym
 from uaconv import py2sx, py2canon, canon_sx, TYPES_NS
 
-HOSTILE = ["a", "b", "Z", "0", " ", "  ", "<", ">", "&", '"', "'", "&amp;", "]]>", "é", "😀", "中", "\t", "\n", ";", "=", "ns=1;", "/", "\\"]
+HOSTILE = ["a", "b", "Z", "0", " ", "  ", "<", ">", "&", '"', "'", "&amp;", "]]>", "é", "😀", "中", "\t", "\n", ";", "=", "ns=1;", "/", "\\", "\u2126", "\u212a", "e\u0301", "\u212b"]
 LOCALES = ["en", "de", "en-US", "nb_NO", "en-US.UTF8", "fil"]
 
 def rtext(rng, maxlen=8, hostile=True):
